@@ -207,7 +207,9 @@ func (s *socket) onPacket(data *packet.Packet) {
 
 	switch data.Type {
 	case packet.PING:
-		if s.Transport().Protocol() != 3 {
+		// the heartbeat mode (and with it which timers exist) is the session's, not the
+		// revision a later upgrade request happened to name
+		if s.protocol != 3 {
 			s.onError(errors.New("invalid heartbeat direction").Err())
 			return
 		}
@@ -216,7 +218,7 @@ func (s *socket) onPacket(data *packet.Packet) {
 		s.sendPacket(packet.PONG, nil, nil, nil)
 		s.Emit("heartbeat")
 	case packet.PONG:
-		if s.Transport().Protocol() == 3 {
+		if s.protocol == 3 {
 			s.onError(errors.New("invalid heartbeat direction").Err())
 			return
 		}
